@@ -616,6 +616,9 @@ func (e *Engine) discharge(workdir string, timeout int) {
 			}
 			q := o.U.Query(o.Assumes, o.Goal, gv)
 			to := timeout
+			if b := rootBudgets[o.Root]; b > to {
+				to = b // root flag solver_budget (bmain.go): quantified obligations known to need more than the default
+			}
 			if o.ExpectSat {
 				to = 3 // vacuity covers: only an "unsat" answer matters
 			}
@@ -655,7 +658,11 @@ func (e *Engine) discharge(workdir string, timeout int) {
 				gv = append(gv, modelTerms(in)...)
 			}
 			q := o.U.Query(o.Assumes, o.Goal, gv)
-			r := solveRace(workdir, fmt.Sprintf("%s.%d.retry", o.Name, i), q, 2*timeout, nil)
+			to2 := 2 * timeout
+			if b := rootBudgets[o.Root]; 2*b > to2 {
+				to2 = 2 * b
+			}
+			r := solveRace(workdir, fmt.Sprintf("%s.%d.retry", o.Name, i), q, to2, nil)
 			if r.Status == "unsat" || r.Status == "sat" {
 				r.Secs += o.Result.Secs
 				o.Result = &r
